@@ -254,13 +254,18 @@ func (n *network) EnableSpawn(name gen.Atom, factory gen.ProcessFactory, nodes .
 		nodes:    make(map[gen.Atom]bool),
 		behavior: strings.TrimPrefix(reflect.TypeOf(factory()).String(), "*"),
 	}
+	// a new entry is complete before it can be found: an empty list means "any node"
+	for _, nn := range nodes {
+		enable.nodes[nn] = true
+	}
 
 	v, exist := n.enableSpawn.LoadOrStore(name, enable)
-	if exist {
-		enable = v.(*enableSpawn)
-		if reflect.TypeOf(enable.factory()) != reflect.TypeOf(factory()) {
-			return fmt.Errorf("%s associated with another process factory", name)
-		}
+	if exist == false {
+		return nil
+	}
+	enable = v.(*enableSpawn)
+	if reflect.TypeOf(enable.factory()) != reflect.TypeOf(factory()) {
+		return fmt.Errorf("%s associated with another process factory", name)
 	}
 	enable.Lock()
 	if len(nodes) == 0 {
@@ -346,11 +351,16 @@ func (n *network) EnableApplicationStart(name gen.Atom, nodes ...gen.Atom) error
 	enable := &enableAppStart{
 		nodes: make(map[gen.Atom]bool),
 	}
+	// a new entry is complete before it can be found: an empty list means "any node"
+	for _, nn := range nodes {
+		enable.nodes[nn] = true
+	}
 
 	v, exist := n.enableAppStart.LoadOrStore(name, enable)
-	if exist {
-		enable = v.(*enableAppStart)
+	if exist == false {
+		return nil
 	}
+	enable = v.(*enableAppStart)
 	enable.Lock()
 	if len(nodes) == 0 {
 		// allow any node to start this app (make nodes map empty)
